@@ -18,6 +18,7 @@ def handle (m : Mode) (ds : DState) (raw : String) : DState × String :=
         | "elem=zst" => Elem.zst
         | "elem=unit" => Elem.unit
         | "elem=nan" => Elem.nan
+        | "elem=wide" => Elem.wide
         | _ => Elem.u32
       ({ elem := elem }, s!"M case {ws.getD 1 ""} ## S ok")
     else
